@@ -1047,7 +1047,7 @@ Family(const std::string &f)
   } else if (f == "list2" && kCap >= 2) {
     with_prefixes("W0:L V P V D | W1:L V D | K:F F", {255, 511, 767});
     with_prefixes("W0:L V P V D | W1:C P D | K:F F B256", {255, 511});
-  } else if (f == "gen1" || f == "gen1s" || f == "gen1q") {
+  } else if (f == "gen1" || f == "gen1s" || f == "gen1q" || f == "genR") {
     // systematic: every well-formed worker script over {C,L,E,V,P,D} (gen1q: plus the observers Q,N) up to 5 (gen1s,
     // gen1q: 4) operations (one guard at a time, E/V/D need a guard, V a list) against every coordinator script of a
     // small set, at a node boundary and away from one
@@ -1081,6 +1081,13 @@ Family(const std::string &f)
                                             : f == "gen1q" ? std::vector<std::string>{"F F", "F N Q F"}
                                                            : std::vector<std::string>{"F F", "F B256"};
     const std::vector<int> ks = f == "gen1" ? std::vector<int>{0, 255, 511} : f == "gen1q" ? std::vector<int>{0, 255} : std::vector<int>{255};
+    if (f == "genR") {
+      // the same worker scripts performed by a thread that inherits the ID slot of an exited one (no forward in
+      // between), with a long stall of the worker (B600) among the coordinator scripts; epoch in the middle of a node
+      for (auto &w : scripts)
+        for (const char *k : {"F F", "B600", "F B300 B300"}) with_prefixes("W0:C D || R0:" + w + " | K:" + k, {255, 300});
+      return out;
+    }
     for (auto &w : scripts)
       for (auto &k : coords) with_prefixes("W0:" + w + " | K:" + k, ks);
   } else if (f == "twomgr") {  // two manager instances, each with its own coordinator, forwarding concurrently
